@@ -47,7 +47,7 @@ def worker_env(hooks=True, extra=None):
     return e
 
 
-def run(driver: str, scenarios: list, *, nproc: int = 16, timeout: int = 1800, hooks=True, extra_env=None, chunking="stride"):
+def run(driver: str, scenarios: list, *, nproc: int = 16, timeout: int = 600, hooks=True, extra_env=None, chunking="stride"):
     """Returns list of results aligned with scenarios.  A worker crash is a machinery error."""
     if not scenarios:
         return []
